@@ -48,7 +48,7 @@ P.update({
           TECH),
   'C09': (True, 'FlowCache.tla, FlowCache_Trace.tla, Relay.tla, Relay_Trace.tla, Listen.tla, Boot.tla',
           'Cache side: TLC checks NoStuck on FlowCache.tla (cacheFull chain under the lock on the reactor thread, unlocked space check and cacheSpaceAvailable chain on the writer thread, handler lists iterated by index); the real cache + events + service.py wiring + real receivers run as two threads under pre-emption-bounded, random and landmark-directed line-level schedules to quiescence and FlowCache_Trace.tla flags anyone left paused below the watermark (listed finding F8 by signature). Relay side: TLC checks NoStuck on Relay.tla and the C07 event histories, settled to quiescence, are judged by Relay_Trace.tla.',
-          'quiescence excludes the 60 s self-metrics timer; MAX_CACHE_SIZE=20 pre-filled so that 1.05*MAX leaves room above MAX; landmark lines are located in the source text',
+          'quiescence excludes the 60 s self-metrics timer and the retries of a destination the dynamic router has removed; MAX_CACHE_SIZE=20 pre-filled so that 1.05*MAX leaves room above MAX; landmark lines are located in the source text',
           TECH),
 })
 
